@@ -424,6 +424,44 @@ def commit_rules(ck, F, rule="R16.7"):
         ck.require(okv and okn and not exits, rule, f"commit:{role}", f"commit on a system with m commitments must return Committed(m) and leave m + 1 commitments, on every path; returned {var!r}, commitments afterwards {store.length() if isinstance(store, Vec) else store!r}, conditional paths {[str(x[1]) for x in exits]}", FX.short(F.fn(path)["sp"]))
 
 
+def initial_state_rule(ck, F, rule="R16.8"):
+    """A fresh system of either role holds nothing: gate count 0, no commitments, no constraints, no deferred callbacks,
+    no open gate -- the transitions above start from the same state on both sides (mutation campaign 3: `num_vars: 1` in
+    Verifier::new survived)."""
+    for role, path in (("prover", H.P_PRV + "new"), ("verifier", H.P_VER + "new")):
+        ck.fn(path)
+        I = H.new_interp(F)
+        try:
+            obj = I.deref(I.call_fn(path, [H.mk_pc_gens(), Tr("main")] if role == "prover" else [Tr("main")]))
+        except Unanalysable as u:
+            ck.fail(rule, f"fresh:{role}", f"unanalysable: {u.msg}", u.where, kind="unanalysable")
+            continue
+        bad = []
+
+        def want_len0(v, what):
+            v = I.deref(v)
+            if not (isinstance(v, Vec) and eq(v.length(), 0)):
+                bad.append(f"{what} = {v!r}")
+
+        try:
+            if role == "prover":
+                sec = I.deref(obj.fields["secrets"])
+                for k_ in ("a_L", "a_R", "a_O", "v", "v_blinding"):
+                    want_len0(sec.fields[k_], "secrets." + k_)
+            else:
+                nv = I.deref(obj.fields["num_vars"])
+                if not (isinstance(nv, IntV) and eq(nv.e, 0)):
+                    bad.append(f"num_vars = {nv!r}")
+                want_len0(obj.fields["V"], "V")
+            want_len0(obj.fields["constraints"], "constraints")
+            want_len0(obj.fields["deferred_constraints"], "deferred_constraints")
+            if not is_empty_pending(obj.fields["pending_multiplier"], role):
+                bad.append(f"pending_multiplier = {obj.fields['pending_multiplier']!r}")
+        except (KeyError, AttributeError) as ex:
+            bad.append(f"state not readable: {ex!r}")
+        ck.require(not bad, rule, f"fresh:{role}", f"a fresh {role} must hold no gates, commitments, constraints, callbacks or open gate; found {bad}", FX.short(F.fn(path)["sp"]))
+
+
 def AN_flat(items):
     out = []
     for it in items:
@@ -549,6 +587,7 @@ def body(ck, F, cfg):
     selfs = sorted(i["self_ty"].split("<")[0] for i in rcs)
     ck.require(selfs == ["r1cs::prover::RandomizingProver", "r1cs::verifier::RandomizingVerifier"], "R16.6", "challenge-only-in-randomized-phase", f"challenge_scalar must be available on the randomizing wrappers only; impls for {selfs}")
     commit_rules(ck, F)
+    initial_state_rule(ck, F)
     ck.floor("method transitions", len([o for o in ck.obligations if o[0] == "R16.1"]), 20)
     ck.floor("delegations", n_del, 12)
 
@@ -562,7 +601,7 @@ def run(tier):
         "transition summary (returned variable handles as terms in c and p, count delta, new pending, constraints added, error exits). Prover and verifier summaries must be identical "
         "and equal to the reference transitions; the prover's three wire vectors move in lock-step; a missing assignment fails before any state change; the phase switch clears the open gate "
         "before the first callback; the randomizing wrappers delegate 1:1.",
-        rule_text="R16.1 transition summaries (finite case analysis on the pending tag); R16.2 lock-step; R16.3 half-open gate; R16.4 phase switch; R16.5 error before state; R16.6 delegation; R16.7 committed-variable handles (commit returns Committed(m) and stores exactly one more commitment, on every path)",
+        rule_text="R16.1 transition summaries (finite case analysis on the pending tag); R16.2 lock-step; R16.3 half-open gate; R16.4 phase switch; R16.5 error before state; R16.6 delegation; R16.7 committed-variable handles (commit returns Committed(m) and stores exactly one more commitment, on every path); R16.8 fresh systems of both roles are empty",
         not_decided=[],
         assumptions=["call sequences are compositions of these transitions (the API exposes nothing else: fields private)"],
     )
